@@ -390,16 +390,16 @@ ASSUMPTIONS = [
 
 PROP_META = {}
 XCHECK = {}
-PROP_LEVEL = {'C07': 'other', 'C08': 'other', 'C15': 'other', 'C20': 'other'}
+PROP_LEVEL = {'C07': 'other', 'C08': 'other', 'C15': 'other'}
 
 SCENARIO_UNITS = {
     'C12': [('consumer_e2e', 1500, 'Consumer + real KafkaClient + codec over a simulated broker: delivered content equals the log, truncated tails never delivered')],
     'C13': [('consumer_e2e', 1500, 'Consumer + real KafkaClient + codec over a simulated broker: no processor call, request or timer after stop; start() fires once'),
-            ('consumer', 400, 'Consumer.stop()/shutdown() (500+ symbolic paths) and their interleavings with replies, timers and processor results')],
+            ('consumer', 3000, 'Consumer.stop()/shutdown() (500+ symbolic paths) and their interleavings with replies, timers and processor results')],
     'C03': [('consumer_e2e', 1500, 'Consumer + real KafkaClient + codec over a simulated broker and coordinator: every OffsetCommit carries a successfully processed offset'),
-            ('consumer', 400, 'commit()/auto-commit chains across processor results: a committed offset was successfully processed')],
+            ('consumer', 3000, 'commit()/auto-commit chains across processor results, commit replies failed out of order and retried: a committed offset was successfully processed, every commit request (first attempt or retry) carries the last-processed offset of that moment')],
     'C02': [('consumer_e2e', 1500, 'Consumer + real KafkaClient + codec over a simulated broker (compaction gaps, gzip wrappers in both formats starting before the requested offset, truncation, errors): delivery is a gap-free in-order run of the log from the start position'),
-            ('consumer', 400, 'delivery order / no concurrent invocation across fetch replies, retries and compaction gaps')],
+            ('consumer', 3000, 'delivery order / no concurrent invocation across fetch replies, retries and compaction gaps')],
     'C04': [('producer_e2e', 4000, 'every produce request a Producer hands to a connection, parsed by an independent reader: header version vs message format, wrapper format vs wrapped messages, correlation id'),
             ('api_discovery', 1, 'version used by the request that triggers discovery and by later ones, for every discovery outcome (table, unordered sparse table, error with / without table, no answer)'),
             ('magic_fallback', 1, 'message format chosen before the API version is known (Producer._send_requests + failed discovery): deterministic reproducer')],
@@ -420,10 +420,11 @@ SCENARIO_UNITS = {
     'C06': [('frames', 1, 'real KafkaProtocol over a StringTransport: impossible announced lengths drop the connection, legal frames are delivered once, for every chunking (exhaustive over the listed cases)'),
             ('brokerclient', 300, 'close()/cancel/response interleavings with re-entrant cancellation from callbacks')],
     'C15': [('group', 400, 'the leader path end to end: the assignment sent in SyncGroup covers the CURRENT partitions of the subscribed topic exactly once across rebalances with a changing partition map'),
-            ('assignment', 300, '_round_robin_assignment (sets, itertools.cycle, nested defaultdict) over member-order permutations')],
+            ('assignment', 300, '_round_robin_assignment (sets, itertools.cycle, nested defaultdict) over member-order permutations, also after an abandoned earlier rebalance on the same protocol object')],
     'C18': [('partitioner', 300, 'round-robin fairness counted over k*n-selection windows with in-place and replaced lists (the per-step cycle contract is proved; the window count is its arithmetic consequence, not machine-checked); pure_murmur2 re-compared natively with the Java transcription')],
     'C16': [('group', 400, 'ConsumerGroup consumer creation/teardown and requests after stop across the @inlineCallbacks join sequence')],
-    'C17': [('group', 400, 'never-idle oracle over generated fault sequences')],
+    'C17': [('group', 400, 'never-idle oracle over generated fault sequences (coordinator errors, consumer errors, failing partition lookups, membership changes)'),
+            ('load_topic_partitions', 1, 'the leader\'s partition lookup (KafkaClient._load_topic_partitions: varargs, a name rebound from tuple to dict - outside the symbolic subset) over every sequence of up to 4 metadata answers: ends with the first healthy answer and its partitions, polls with the per-attempt back-off only while the latest answer is unhealthy')],
 }
 
 
